@@ -12,7 +12,10 @@ LEVEL_TEXT = ("After every operation the reported key and trigger counts must be
               "every fetch result (hit/miss, value, trigger set, deadline) must be explained too and prunes the state set; the count never "
               "exceeds the limit. On 512 KiB..4 MiB segments the model additionally admits memory-pressure evictions in the same victim "
               "order, refusal and the documented full clear, but never stale data; fill/empty/refill cycles that keep live data below "
-              "1/16 of the segment are checked exactly, so unreleased memory appears as lost entries.")
+              "1/16 of the segment are checked exactly, so unreleased memory appears as lost entries. Long runs (thousands of fill/empty "
+              "cycles with fresh key and trigger names in every cycle, emptied by rise/remove/overwrite/expiry/eviction/clear) keep that "
+              "exact oracle running until a per-entry leak would have eaten a 512 KiB..2 MiB segment, and compare the largest value that "
+              "fits into the empty cache before and after the run.")
 LEVEL_NOTE = ("Random sampling of histories (no exhaustive part); shmem_control::max_available() is not reachable, so release of memory is "
               "observed behaviourally; above 1/16 segment occupancy the shared-memory oracle is a consistency check (a store that is "
               "silently dropped is accepted there as long as the value it was to replace is gone too).")
@@ -21,7 +24,11 @@ RULE = ("case = (back-end, segment, limit, history of store/fetch/rise/remove/cl
         "operations; shm: limits {0,1,2,4,8,64}, 3..9 keys, value sizes 0..1.5x segment; cycles: 2..48 (thorough 120) fill/empty rounds of "
         "1..8 values emptied by clear/remove/rise/expiry/overwrite. Non-trivial: an eviction happened while both an expired and a live "
         "entry existed, or a fetch moved the LRU tail before an LRU eviction (lru); the history ran under possible memory pressure (shm); "
-        "every cycles case. Distinct = hash of the serialised case.")
+        "every cycles case; long: 1..3 phases of (cycles x fill n fresh entries, empty by one of rise own-key / shared / extra trigger, "
+        "remove, overwrite with a past deadline, expiry, eviction by limit, clear), 300..7000 (thorough 20000) removals per case on "
+        "512 KiB..2 MiB (thorough 4 MiB), limit 1..8, non-trivial when >= 1000 removals happened without an intervening clear(). "
+        "Capacity probe: largest buddy size class 2^c-64 bytes that can be stored into the empty cache, before vs after (tolerance 1 "
+        "class; measured drop on the unchanged tree: 0 in every case). Distinct = hash of the serialised case.")
 
 BIG = 262144
 
@@ -50,15 +57,17 @@ def units(bins, tier, seed):
         else:
             add("shm", 1, seg, 1000, 1, "shm")
             add("cycles", 1, seg, 500, 1, "cycles")
+    add("long", 1, 512, 30 if not thorough else 150, 3 if not thorough else 4, "long")     # the segment size is generated per case
     # one unit of each kind first (the evidence keeps the samples of the first units)
     first = [u for u in us if u.name.endswith("-0") and ("s512" in u.name or "lru" in u.name)]
+    first = [u for u in us if ".long" in u.name] + [u for u in first if ".long" not in u.name]   # the long runs are the slowest units
     return first + [u for u in us if u not in first]
 
 
 def floor(tier):
     if tier == "thorough":
-        return {"lru": 7 * 50000, "shm": 6 * 10000, "cycles": 3 * 4000}
-    return {"lru": 6 * 3000, "shm": 3 * 1000, "cycles": 3 * 500}
+        return {"lru": 7 * 50000, "shm": 6 * 10000, "cycles": 3 * 4000, "long": 4 * 150}
+    return {"lru": 6 * 3000, "shm": 3 * 1000, "cycles": 3 * 500, "long": 3 * 30}
 
 
 def run(tier, seed):
@@ -90,4 +99,6 @@ MUTATIONS = [
     dict(name="shmem-free-is-noop", edits=[("private/shmem_allocator.h", "\t\treturn mm->free(p);\n", "\t\t(void)p;\n")]),
     # reverts the fix of the finding shm:failed-store-keeps-old-value (a store refused for lack of shared memory left the old value)
     dict(name="revert-fix-failed-store-keeps-old-value", edits=[("src/cache_storage.cpp", "\t\t\tremove(key);\n\t\t\treturn;", "\t\t\treturn;")]),
+    # own: a trigger record whose last entry went away is never erased (leaks one record per distinct trigger name)
+    dict(name="delete_node-keeps-empty-trigger-records", edits=[("src/cache_storage.cpp", "\t\t\tif(i->first->second.empty())\n\t\t\t\ttriggers.erase(i->first);\n", "")]),
 ]
